@@ -40,7 +40,7 @@ class ClassInfo:
 
 
 class Repo:
-    def __init__(self, root=None):
+    def __init__(self, root=None, normalise=True):
         self.root = root or REPO
         self.pkgdir = os.path.join(self.root, PKG)
         self.modules = {}       # name -> dict(path, src, tree, lines)
@@ -54,6 +54,10 @@ class Repo:
             if fn.endswith('.py'):
                 self._load(fn)
         self._mro_cache = {}
+        self.inlined, self.helpers = [], []
+        if normalise and not os.environ.get('BISTAT_NO_INLINE'):
+            from .normal import inline_helpers
+            inline_helpers(self)
 
     # ------------------------------------------------------------ loading
     def _load(self, fn):
@@ -272,6 +276,8 @@ class Repo:
             if fi.module != 'codegen':
                 continue
             for n in ast.walk(fi.node):
+                if hasattr(n, '_inl'):
+                    continue            # copy made by helper expansion: the template belongs to the helper
                 if isinstance(n, ast.BinOp) and isinstance(n.op, ast.Mod) and isinstance(n.left, ast.Constant) \
                         and isinstance(n.left.value, str) and '\n' in n.left.value and HOLE.search(n.left.value):
                     right = n.right
